@@ -160,10 +160,48 @@ def check_marks(sh, p0, p1, ordered, problems, where):
             check_marks(x[3], c0s[i0].children, c1s[i1].children, ordered, problems, where + [name])
 
 
-def one_pair(ctx, out, s0, s1):
+def mut_pair(ctx, out, s0, s1, seed, steps=3):
+    """diff – edit one input IN PLACE – diff again, on the same tree objects (nothing remembered from an earlier diff() may
+    influence a later one); all choices derive from `seed`"""
+    import random
+
+    rng = random.Random(seed)
     pool = ctx.pool
-    t0 = adapter.build(s0, pool)
-    t1 = adapter.build(s1, pool)
+    t0, t1 = adapter.build(s0, pool), adapter.build(s1, pool)
+    log = []
+    one_pair(ctx, out, dict(mut=dict(t0=s0, t1=s1, seed=seed, steps=0)), None, trees=(t0, t1))
+    for step in range(steps):
+        t = rng.choice([t1, t1, t0])
+        nodes = list(t)
+        what = ["sort", "set_data", "remove", "add", "move", "sort_deep"][(seed + step) % 6]
+        try:
+            if what == "sort" and nodes:
+                (rng.choice(nodes).parent or t.system_root).sort_children(key=lambda n: str(n.data), reverse=True)
+            elif what == "sort_deep":
+                t.sort(reverse=True)
+            elif what == "set_data" and nodes:
+                rng.choice(nodes).set_data(pool.objs[rng.choice(LABELS)])
+            elif what == "remove" and nodes:
+                rng.choice(nodes).remove(keep_children=rng.random() < 0.5)
+            elif what == "add":
+                rng.choice([t] + nodes).add(pool.objs[rng.choice(LABELS)], before=rng.choice([None, True, 0]))
+            elif what == "move" and len(nodes) >= 2:
+                a, b = rng.sample(nodes, 2)
+                if not b.is_descendant_of(a):
+                    a.move_to(b, before=rng.choice([None, True]))
+        except Exception as e:  # noqa  (refused: unique constraint)
+            what += ":" + type(e).__name__
+        log.append(what)
+        one_pair(ctx, out, dict(mut=dict(t0=s0, t1=s1, seed=seed, steps=step + 1, log=list(log))), None, trees=(t0, t1))
+
+
+def one_pair(ctx, out, s0, s1, trees=None):
+    pool = ctx.pool
+    if trees is not None:
+        t0, t1 = trees
+    else:
+        t0 = adapter.build(s0, pool)
+        t1 = adapter.build(s1, pool)
     # some input nodes carry user metadata (a diff must neither change it nor write its marks into the inputs)
     for t in (t0, t1):
         for k, n in enumerate(t):
@@ -285,6 +323,9 @@ def run(ctx):
         out.dist["random_pair"] += 1
         if k < 3:
             out.sample(dict(t0=s0, t1=s1))
+        if k % 3 == 0:
+            mut_pair(ctx, out, s0, s1, rng.randrange(1 << 30))
+            out.dist["diff_edit_diff"] += 1
     return out
 
 
@@ -339,5 +380,9 @@ def replay(ctx, rp):
     out = core.Outcome()
     if case.get("t1") == "copy":
         return dict(property_holds=False, case=case)
-    one_pair(ctx, out, tuplify_d(case["t0"]), tuplify_d(case["t1"]))
+    if isinstance(case.get("t0"), dict) and "mut" in case["t0"]:
+        m = case["t0"]["mut"]
+        mut_pair(ctx, out, tuplify_d(m["t0"]), tuplify_d(m["t1"]), m["seed"], m["steps"])
+    else:
+        one_pair(ctx, out, tuplify_d(case["t0"]), tuplify_d(case["t1"]))
     return dict(failures=[f["what"] for f in out.oracle_failures[:4]], disagreements=[d["what"] for d in out.disagreements[:3]], property_holds=not out.oracle_failures)
